@@ -100,7 +100,7 @@ def install(h, cfg):
       with rh.Recording(perm_seed=seed + len(h.log), reads=True) as rec:
         r2 = m.apply(uas)
       h.stats["permuted_runs"] = h.stats.get("permuted_runs", 0) + 1
-      fake = {"log_index": len(h.log) - 1}
+      fake = {"log_index": len(h.log) - 1, "actions": uas}
       bad = rh.dirty_read_violations(rec.reads)
       if bad:
         h._find(PROP, "an evaluation completed although it read a dirty cell (permuted schedule)", repr(bad[:2]), fake,
